@@ -68,17 +68,17 @@ CHECKS = {
          "3/C18"),
  "C01": ("fault_enumeration",
          "Hypothesis scenario generation + exhaustive fault product against the real runtime in a forked worker; identity-based cause oracle",
-         "Failing payloads of every flavour x ~57 failure kinds (Exception subclasses, BaseExceptions, all falsy and truthy return values, KeyboardInterrupt raised or as real SIGINT) x 6 registration modes x both runners are enumerated exhaustively without bystanders, and sampled with bystanders, several simultaneous failures, delays, accept delays and switch intervals. The blocking call must end within 20 s, must not return normally without a KeyboardInterrupt and must raise RuntimeError caused (through exception groups, by identity) only by injected failures.",
+         "Failing payloads of every flavour x ~57 failure kinds (Exception subclasses, BaseExceptions, all falsy and truthy return values, KeyboardInterrupt raised or as real SIGINT) x 6 registration modes x both runners are enumerated exhaustively without bystanders, and sampled with bystanders, several simultaneous failures, delays, accept delays and switch intervals; a further test runs the same runner instance twice. The blocking call must end within 20 s, must not return normally without a KeyboardInterrupt and must raise RuntimeError caused (through exception groups, by identity) only by injected failures.",
          "Thread interleavings are sampled, not enumerated; bounded liveness (20 s) stands for 'never keeps running'; accept()/run() executes in the main thread of a forked worker per scenario.",
          "3/C01"),
  "C02": ("fault_enumeration",
          "Hypothesis termination scenarios in a forked worker; invariant over the timestamped per-payload event log vs the instant the call ended",
-         "Every termination trigger (failure per flavour and kind, raised KeyboardInterrupt, real SIGINT, shutdown(), stop()) at generated instants against generated sets of running coroutine payloads (sleeping, spinning, beating, just adopted, adopted from payloads, adopted during shutdown) with synchronous and shielded cleanup and blocked threads; each started coroutine payload must log its framework's cancellation and cleanup-done before T_end and nothing after it.",
+         "Every termination trigger (failure per flavour and kind, raised KeyboardInterrupt, real SIGINT, shutdown(), stop()) at generated instants against generated sets of running coroutine payloads (sleeping, spinning, beating, just adopted, adopted from payloads, adopted during shutdown) with synchronous and shielded cleanup and blocked threads, compound triggers (shutdown followed by a failure inside the cleanup window) and payloads adopted by the failing payload in its last step; each started coroutine payload must log its framework's cancellation and cleanup-done before T_end and nothing after it.",
          "Sampled interleavings and trigger instants; timestamps are monotonic_ns taken inside the payloads, T_end after the call returned; 20 s liveness bound.",
          "3/C02"),
  "C03": ("exploration",
          "Hypothesis submission histories (steady and shutdown-race phases) in a forked worker; exactly-once / argument / context / adopt-result oracle",
-         "Generated numbers of payloads and services per flavour with generated arguments, submitted before start, at start, during the first polling cycles and later by concurrent outside threads and from payloads of every flavour; counted at quiescence plus five polling periods; a second phase races shutdown() against adopt storms while payloads with long (shielded) cleanup keep the runtime in its cleanup window.",
+         "Generated numbers of payloads and services per flavour with generated arguments, submitted before start, at start, during the first polling cycles and later by concurrent outside threads and from payloads of every flavour; counted at quiescence plus five polling periods; a second phase races shutdown() against adopt storms while payloads with long (shielded) cleanup keep the runtime in its cleanup window; services that finish and are dropped while new ones are created, 25-70 payloads of one flavour, and line-level schedule perturbation (settrace delays) inside the runner modules for concurrent submitters.",
          "Sampled interleavings; 'none is lost' judged within 20 s; adopt calls after shutdown began are judged only inside observed cleanup intervals.",
          "3/C03"),
  "C10": ("exploration",
@@ -88,12 +88,12 @@ CHECKS = {
          "3/C10"),
  "C11": ("exploration",
          "Hypothesis mixes of adopted/service/executed coroutine payloads with non-atomic overlap detectors; thread/loop/run identity oracle",
-         "2-10 coroutine payloads per flavour from every submission path run synchronous sections around a GIL-releasing sleep with a per-flavour enter/exit counter; all events of a flavour must carry one thread and one loop/run identity, counters never differ from 1, heartbeats progress while thread payloads block.",
+         "2-10 coroutine payloads per flavour from every submission path run synchronous sections around a GIL-releasing sleep with a per-flavour enter/exit counter; all events of a flavour must carry one thread and one loop/run identity, counters never differ from 1, heartbeats progress (relative to an idle control window, reproduced three times) while thread payloads block; adopters with private event loops, 25-40 simultaneous blockers, executes around the moment of shutdown.",
          "Overlap absence is sampled; identity checks are deterministic for the usual breakages (private loop / trio.run per execute).",
          "3/C11"),
  "C12": ("fault_enumeration",
          "Hypothesis multi-episode lifecycle histories in one forked process; outcome/duration oracle per accept, shutdown and concurrent accept",
-         "1-5 episodes with fresh runners, end modes shutdown (outside thread / thread payload, generated offsets incl. immediately), real SIGINT, failing payload, shutdown racing a failure; concurrent accept attempts on the same or another instance; populations none / coroutines with cleanup / blocked threads / concurrent adopters; the next episode must report running after every kind of exit.",
+         "1-5 episodes with fresh runners, end modes shutdown (outside thread / thread payload, generated offsets incl. immediately), real SIGINT, failing payload, shutdown racing a failure; concurrent accept attempts on the same or another instance; populations none / coroutines with cleanup / blocked threads / concurrent adopters; the next episode must report running after every kind of exit; simultaneous accepts of two runners under line-level schedule perturbation inside the guard module.",
          "shutdown/SIGINT are issued after the runner reported running; 20 s liveness bound; a finished runner instance is not reused.",
          "3/C12"),
  "C13": ("fault_enumeration",
